@@ -5,6 +5,7 @@
 //!   mrl-verif <Cxx> --replay <file>           re-execute a recorded violating case
 //!   mrl-verif __shard ...                     internal worker entry point
 
+mod auxleg;
 mod capalloc;
 mod damage;
 mod gen;
@@ -59,6 +60,10 @@ fn main() {
     let args: Vec<String> = std::env::args().collect();
     if args.len() < 3 {
         usage();
+    }
+    if args[1] == "__aux" {
+        // sanitizer workloads: no shim, no fork
+        std::process::exit(auxleg::run(&args[2..]));
     }
     ensure_shim();
     shim::pause(true);
